@@ -167,6 +167,7 @@ func runC16(a *A) {
 	a.Rule("flow/alias-default-before-use", 1, func() { a.ruleAliasDefaultBeforeUse() })
 	a.Rule("flow/table-source-resolved-per-use", 2, func() { a.ruleTableSourceResolvedPerUse() })
 	a.Rule("flow/join-result-per-iteration", 4, func() { a.ruleJoinResultPerIteration() })
+	a.Rule("flow/join-parse-error-fatal", 1, func() { a.ruleJoinParseErrorFatal() })
 	a.Rule("shape/key-order", 2, func() {
 		ej := a.Method("stream", "Stream", "enrichJoin")
 		jk := a.Method("stream", "Stream", "JoinKeyFields")
@@ -248,8 +249,21 @@ func (a *A) ruleAliasDefaultBeforeUse() {
 		if !ok || c.Call.StaticCallee() == nil || !a.fnInModule(c.Call.StaticCallee()) {
 			return
 		}
-		for _, arg := range c.Call.Args {
+		for i, arg := range c.Call.Args {
+			use := false
 			if t := TermOf(arg, nil); t.Kind == "field" && t.Field == aliasF {
+				use = true
+			}
+			// the whole config handed to a helper that reads its Alias
+			if fa, ok := def.Addr.(*ssa.FieldAddr); ok && arg == fa.X && i < len(c.Call.StaticCallee().Params) {
+				prm := c.Call.StaticCallee().Params[i]
+				allInstrs(c.Call.StaticCallee(), func(y ssa.Instruction) {
+					if f2, ok := y.(*ssa.FieldAddr); ok && f2.X == ssa.Value(prm) && fieldVarOf(f2) == aliasF {
+						use = true
+					}
+				})
+			}
+			if use {
 				n++
 				if !(merge.Dominates(c.Block()) || merge == c.Block()) {
 					okAll = false
@@ -275,9 +289,15 @@ func (a *A) ruleOnOperandSides() {
 	read := a.Method("rsql", "Parser", "readJoinedFieldName")
 	pair := a.Named("types", "JoinOnPair")
 	n := 0
+	// the ON loop is in parseJoin or in a Parser method it calls (one level)
+	hosts := append([]*ssa.Function{fn}, a.helpersOf(fn)...)
 	for _, fld := range []string{"StreamField", "TableField"} {
 		fv := a.FieldOf(pair, fld)
-		for _, st := range storesToField(fn, fv) {
+		var stores []*ssa.Store
+		for _, h := range hosts {
+			stores = append(stores, storesToField(h, fv)...)
+		}
+		for _, st := range stores {
 			n++
 			// operand calls the stored text can come from
 			calls := map[*ssa.Call]bool{}
@@ -574,4 +594,74 @@ func (a *A) ruleJoinResultPerIteration() int {
 		a.anchorFail("no loop over Config.JoinConfigs found in enrichJoin")
 	}
 	return n
+}
+
+// ruleJoinParseErrorFatal: the parser "recovers" from errors of most clauses (it records them and
+// goes on). For the JOIN clause that is not an option: a query whose JOIN could not be parsed would be
+// executed without it — no enrichment, an INNER JOIN that drops nothing — and Execute would report
+// success. In Parser.Parse, once parseJoin has returned an error no further clause parser is reached:
+// every path from there leads to the return of the error.
+func (a *A) ruleJoinParseErrorFatal() int {
+	parse := a.Method("rsql", "Parser", "Parse")
+	pj := a.Method("rsql", "Parser", "parseJoin")
+	n := 0
+	for _, c := range callsTo(parse, pj) {
+		call, ok := c.(*ssa.Call)
+		if !ok {
+			continue
+		}
+		n++
+		// the branch on err != nil
+		var errBranch *ssa.BasicBlock
+		for _, r := range *call.Referrers() {
+			bo, ok := r.(*ssa.BinOp)
+			if !ok || !isNilConst(bo.Y) || bo.X != ssa.Value(call) {
+				continue
+			}
+			for _, rr := range *bo.Referrers() {
+				if iff, ok := rr.(*ssa.If); ok {
+					if bo.Op == token.NEQ {
+						errBranch = iff.Block().Succs[0]
+					} else if bo.Op == token.EQL {
+						errBranch = iff.Block().Succs[1]
+					}
+				}
+			}
+		}
+		construct := fname(parse) + "#join-error-fatal"
+		if errBranch == nil {
+			a.Und(construct, call.Pos(), "the error result of parseJoin is not tested")
+			continue
+		}
+		hit := reachableFrom(errBranch, 0, func(x ssa.Instruction) bool {
+			sc := staticCallee(x)
+			return sc != nil && sc.Signature.Recv() != nil && isNamedType(sc.Signature.Recv().Type(), modPath+"/rsql", "Parser") && strings.HasPrefix(sc.Name(), "parse")
+		}, nil)
+		pos := call.Pos()
+		if hit != nil {
+			pos = hit.Pos()
+		}
+		a.Check(hit == nil, construct, pos, "after parseJoin failed no further clause is parsed: the error is returned",
+			"after parseJoin returned an error the parser can go on with the other clauses (error recovery): the statement is accepted without its JOIN, rows are not enriched and an INNER JOIN drops nothing, while Execute reports success")
+	}
+	if n == 0 {
+		a.anchorFail("Parser.Parse does not call parseJoin")
+	}
+	return n
+}
+
+// helpersOf: the same-package functions fn calls synchronously (one level), with a body.
+func (a *A) helpersOf(fn *ssa.Function) []*ssa.Function {
+	var out []*ssa.Function
+	seen := map[*ssa.Function]bool{fn: true}
+	allInstrs(fn, func(in ssa.Instruction) {
+		if _, isGo := in.(*ssa.Go); isGo {
+			return
+		}
+		if h := staticCallee(in); h != nil && !seen[h] && h.Blocks != nil && h.Pkg == fn.Pkg {
+			seen[h] = true
+			out = append(out, h)
+		}
+	})
+	return out
 }
